@@ -45,6 +45,8 @@ def bind_repo():
         sys.path.insert(0, REPO)
     import warnings
     import logging
+    from mc import cov as _cov
+    _cov.start(REPO, (sys.argv[1] if len(sys.argv) > 1 else 'x').replace('/', '_')[:12])   # audit tool, off unless VERIF_COV is set
     warnings.simplefilter('ignore')
     warnings.showwarning = lambda *a, **k: None   # the library re-arms the warning filters inside its solver loop
     import py_ballisticcalc  # noqa
@@ -124,6 +126,9 @@ def _run_cell(job):
             res = {'harness_error': txt}
     finally:
         signal.alarm(0)
+        if os.environ.get('VERIF_COV'):
+            from mc import cov as _cov
+            _cov.dump()
     res['_t'] = time.time() - t0
     if res.get('v') and prior:
         res['_prior'] = prior
